@@ -946,7 +946,7 @@ static const char* scanf_fmtstr(const char* src, char* type)
     const char* end = src;
     // skip to string end, word end or a closing parenthesis
     for(; *end && !isspace(*end) && (*end != ')') && (*end != ']')
-               && strncmp(end, "...", 3); ++end);
+               && (*end != '%') && strncmp(end, "...", 3); ++end);
 
     int exp = end - src;
 
